@@ -161,15 +161,9 @@ impl Visit for LiteralVisitor {
             Expr::New(new_exp) => {
                 if let Expr::Ident(ident) = &*new_exp.callee {
                     if ident.sym == "RegExp"
-                        && new_exp
-                            .args
-                            .as_ref()
-                            .map(|args| {
-                                !args.is_empty()
-                                    && args[0].spread.is_none()
-                                    && args[0].expr.is_lit()
-                            })
-                            .is_some()
+                        && new_exp.args.as_ref().is_some_and(|args| {
+                            !args.is_empty() && args[0].spread.is_none() && args[0].expr.is_lit()
+                        })
                     {
                         // if the call is a new RegExp('regex') skip visiting children
                         return;
